@@ -450,7 +450,7 @@ def check_kind(mir, stage, err_path, res):
                     if te.k != "call":
                         continue
                     nm = short_path(te.a[0])
-                    if nm.endswith("HashSet::contains") or nm.endswith("HashMap::contains_key"):
+                    if nm.endswith(("HashSet::contains", "HashMap::contains_key", "BTreeSet::contains", "BTreeMap::contains_key")):
                         se = strip_transparent(te.a[1][0])
                         desc = canon(se)
                         if se.k == "field" and se.a[2] in mir.adts:
@@ -484,7 +484,7 @@ def check_kind(mir, stage, err_path, res):
     for fn in stage:
         ex = Exprs(fn)
         for c in fn.calls():
-            if short_path(c.rpath or "").endswith("HashMap::insert") and c.args and "ByteIndex" in (fn.local_ty(c.args[0]["pl"]["l"])["s"] if c.args[0]["k"] in ("copy", "move") and not c.args[0]["pl"]["p"] else "") and "String" in fn.local_ty(c.args[0]["pl"]["l"])["s"]:
+            if short_path(c.rpath or "").endswith(("HashMap::insert", "BTreeMap::insert")) and c.args and "ByteIndex" in (fn.local_ty(c.args[0]["pl"]["l"])["s"] if c.args[0]["k"] in ("copy", "move") and not c.args[0]["pl"]["p"] else "") and "String" in fn.local_ty(c.args[0]["pl"]["l"])["s"]:
                 k_ = name_kind_interproc(mir, stage, fn, ex.operand(c.args[1]))
                 n_ins += 1
                 res.inst(rule, "clash-insert|" + fn.path.rsplit("::", 1)[-1], c.where, True, "key kind %s" % (sorted(k_) if k_ else None))
@@ -579,7 +579,7 @@ def check_truth(mir, stage, err_path, res):
                 res.inst(rule, key, where, True, "%s" % ops)
                 if v in ("NameClash", "NonterminalEnumVariantNameClash", "NonterminalEnumVariantSymbolSequenceClash"):
                     name, old, new = ops
-                    m = re.match(r"^\(HashMap::get\((.*?), (.*)\) as Some\)\.0$", old)
+                    m = re.match(r"^\((?:HashMap|BTreeMap)::get\((.*?), (.*)\) as Some\)\.0$", old)
                     if not m:
                         res.violate(rule, key + "|existing-position", where, "the first position of a clash error must be the value stored under the clashing key (payload of the failed `get`), found `%s`" % old)
                         continue
@@ -597,7 +597,7 @@ def check_truth(mir, stage, err_path, res):
                         res.violate(rule, key + "|new-position", where, "the second position `%s` does not belong to the declaration whose name/sequence `%s` clashed" % (new, k_))
                     # what is stored under a key is the position of the declaration that owns the key
                     for c in fn.calls():
-                        if short_path(c.rpath or "").endswith("HashMap::insert"):
+                        if short_path(c.rpath or "").endswith(("HashMap::insert", "BTreeMap::insert")):
                             ik = canon(ex.operand(c.args[1]))
                             iv = canon(ex.operand(c.args[2]))
                             if v == "NonterminalEnumVariantSymbolSequenceClash":
